@@ -85,7 +85,7 @@ def _oracle_one(s):
         if str(c) != s[i] or c.position != i or not isinstance(c.category, CC):
             return ('categorize-entry', 'index %d' % i)
     try:
-        toks = list(tokenize(categorize(s)))
+        toks = common.impl_token_list(s)
     except Exception as e:
         return ('tokenize-raises', type(e).__name__)
     kept = ''.join(str(t) for t in toks)
